@@ -59,6 +59,9 @@ def cterm(t):
         return "(RRaise (UserError 5))"
     if k == "recerr":
         return "(RRaise RecursionError)"
+    if k == "try":
+        # try: t[2]  except <t[1]>: t[3]   (t[1]: "ValueError" or "Exception")
+        return f"(RTry {'catch_value_error' if t[1] == 'ValueError' else 'catch_exception'} {cterm(t[2])} {cterm(t[3])})"
     if k == "dep":
         pools_ = clist(clist(chist(h) for h in d) for d in t[2])
         tbl = clist(f"({ckey(key)}, {_cval(v)})" for key, v in t[3])
@@ -134,7 +137,7 @@ class Marker(Exception):
     pass
 
 
-class WrongSource(Exception):
+class WrongSource(BaseException):     # not an Exception: a callback's `except Exception` must not hide it
     pass
 
 
@@ -218,6 +221,11 @@ def run_mech_impl(mech, calls, fault=None, use_foreach=False, base_exception=Fal
             return a + ev(t[2])
         if k == "raise":
             raise Marker("table")
+        if k == "try":
+            try:
+                return ev(t[2])
+            except (ValueError if t[1] == "ValueError" else Exception):
+                return ev(t[3])
         if k == "recerr":
             raise RecursionError("callback bottomed out the stack")
         if k == "dep":
@@ -345,7 +353,7 @@ def dist_of_items(items):
     return {Fraction(*o): Fraction(c, t) for o, c in items if c}
 
 
-class Budget(Exception):
+class Budget(BaseException):     # must pass through the `except Exception` of a try term
     pass
 
 
@@ -396,6 +404,11 @@ def oracle_calls(mech, calls, fault=None, budget=20000):
             return a + b
         if k == "raise":
             raise Marker("table")
+        if k == "try":
+            try:
+                return ev(t[2], ctx)
+            except (ValueError if t[1] == "ValueError" else Exception):
+                return ev(t[3], ctx)
         if k == "recerr":
             raise RecErr()
         if k == "dep":
